@@ -78,6 +78,8 @@ type Facts struct {
 	GrpcFlags   [][3]string         `json:"grpcFlags"`
 	Sites       map[string][]string `json:"sites"`
 	AwaitLoops  [][3]string         `json:"awaitLoops"`
+	CoCmds      [][3]string         `json:"coroutineCmds"`
+	TaskGuards  [][3]string         `json:"taskGuards"`
 	Defaults    map[string]string   `json:"defaults"`
 }
 
@@ -286,6 +288,48 @@ func main() {
 		}
 	}
 
+	// 5c. what every coroutine submits, in source order: the t_aio command kinds it builds, and the state guards of the
+	// task updates it writes (`CurrentStates`) — the hand-written coroutine models are written against exactly these
+	{
+		files, _ := filepath.Glob(filepath.Join(repo, "internal/app/coroutines", "*.go"))
+		sort.Strings(files)
+		for _, p := range files {
+			if strings.HasSuffix(p, "_test.go") {
+				continue
+			}
+			f := parse(p)
+			if f == nil {
+				continue
+			}
+			rel, _ := filepath.Rel(repo, p)
+			for _, d := range f.Decls {
+				fd, ok := d.(*ast.FuncDecl)
+				if !ok || fd.Body == nil {
+					continue
+				}
+				kinds := []string{}
+				ast.Inspect(fd.Body, func(n ast.Node) bool {
+					kv, ok := n.(*ast.KeyValueExpr)
+					if !ok {
+						return true
+					}
+					switch selName(kv.Key) {
+					case "Kind":
+						if v := src(kv.Value); strings.HasPrefix(v, "t_aio.") {
+							kinds = append(kinds, strings.TrimPrefix(v, "t_aio."))
+						}
+					case "CurrentStates":
+						facts.TaskGuards = append(facts.TaskGuards, [3]string{rel, fd.Name.Name, src(kv.Value)})
+					}
+					return true
+				})
+				if len(kinds) > 0 {
+					facts.CoCmds = append(facts.CoCmds, [3]string{rel, fd.Name.Name, strings.Join(kinds, " ")})
+				}
+			}
+		}
+	}
+
 	// 6. struct-tag defaults
 	for _, spec := range [][3]string{
 		{"internal/app/subsystems/aio/store/sqlite/sqlite.go", "Config", "sqlite"},
@@ -395,6 +439,22 @@ func main() {
 	for i, a := range facts.AwaitLoops {
 		sep := ","
 		if i == len(facts.AwaitLoops)-1 {
+			sep = ""
+		}
+		fmt.Fprintf(&ss, "  (%s, %s, %s)%s\n", q(a[0]), q(a[1]), q(a[2]), sep)
+	}
+	ss.WriteString("]\n\n/-- the t_aio submission / command kinds every coroutine function builds, in source order: (file, function, kinds) -/\ndef coroutineCmds : List (String × String × String) := [\n")
+	for i, a := range facts.CoCmds {
+		sep := ","
+		if i == len(facts.CoCmds)-1 {
+			sep = ""
+		}
+		fmt.Fprintf(&ss, "  (%s, %s, %s)%s\n", q(a[0]), q(a[1]), q(a[2]), sep)
+	}
+	ss.WriteString("]\n\n/-- the state guard (`CurrentStates`) of every task update a coroutine writes: (file, function, expression) -/\ndef taskGuards : List (String × String × String) := [\n")
+	for i, a := range facts.TaskGuards {
+		sep := ","
+		if i == len(facts.TaskGuards)-1 {
 			sep = ""
 		}
 		fmt.Fprintf(&ss, "  (%s, %s, %s)%s\n", q(a[0]), q(a[1]), q(a[2]), sep)
